@@ -461,7 +461,7 @@ func init() {
 			}
 			nr := 400
 			if !quick(tier) {
-				nr = 8000
+				nr = 30000
 			}
 			for i := 0; i < nr; i++ {
 				cs = append(cs, Case{Kind: "rnd", Seed: h.Mix(seed, 0xC11, uint64(i))})
